@@ -25,7 +25,9 @@ CLAIMS = {
             '(2 SNVs; site-removing SNV + in-frame deletion; 3 SNVs in a pop-collapsed bubble): for every (peptide, header '
             'entry) pair the real traversal writes, the named variants were supplied, are compatible, and applying exactly '
             'them gives a translation in which the peptide is a digestion product; no entry string occurs twice - for '
-            'miscleavage 1 (thorough 2) and ALL integer min/max lengths.',
+            'miscleavage 1 (thorough 2) and ALL integer min/max lengths; likewise on a selenoprotein under '
+            '--selenocysteine-termination and on a stop-lost read-through (deletion across the stop codon + downstream '
+            'SNV) with GENCODE-style and with UTR-less annotation.',
             'The end-to-end statement is decided on three fixed transcripts only; for other inputs only the kernels '
             'apply (codon alignment, translation and cleavage-graph construction cannot carry symbolic content: DESIGN.md '
             'sections 6, 8); graph nodes are stand-ins in the join step.'),
@@ -65,19 +67,22 @@ CLAIMS = {
     'C11': (True, CH,
             'Coordinate conversions are mutually inverse and reject introns for UNBOUNDED symbolic exon '
             'coordinates (1-3 exons, thorough 4, both strands); extracted sequences equal the strand-corrected '
-            'genome elementwise; ORF start/end and Sec positions agree with CDS/UTR/Sec features; pointer cache '
+            'genome elementwise; ORF start/end and Sec positions agree with the CDS/Sec features for GENCODE-style, '
+            'ENSEMBL-style and UTR-less annotations; pointer cache '
             'inductive step from any valid state; GTF byte-range pointers; GTF line round trip; whole-annotation '
             'GtfIO.write -> dump_gtf round trip (1 gene with CDS/UTR/Sec/tags, and 2 genes / 3 transcripts) for symbolic '
             'coordinates < 59000.',
             'Bounds per condition in the evidence file. The on-disk annotation is decided through the real '
             'generate_index / pointer load over a binary-file stand-in (line byte lengths concrete, coordinates symbolic): '
             'models equal the fully parsed ones for every access order incl. a repeated access, and two annotations alive '
-            'in one process do not see each other; real byte decoding is not encoded.'),
+            'in one process do not see each other; a lookup of an id that is not annotated leaves a valid cache state; real '
+            'byte decoding is not encoded.'),
     'C12': (True, CH,
             'One inductive step of the index metadata state machine from states built by real registrations; '
             'save/override/load history over a dict-backed file system; generateIndex/updateIndex digest the pool '
             'with exactly the parameters they register, for all option values; three-step histories (two pools, then a forced '
             'refresh of the older or the newer one, or a third pool) load back the right pool for every parameter set; '
+            'metadata written as JSON and read back by a new IndexDir keeps every parameter value (zeros included); '
             'version gate.',
             'Pickle/JSON serialisation itself is outside the claim.'),
     'C13': (True, CH,
